@@ -73,7 +73,6 @@ def dispatch (op : String) (args : List String) : String :=
   | "gtips" | "gnodebranch" | "gnode" => AlgoRun.handleNodeBranch op args
   | "gmst" => AlgoRun.handleMst args
   | "gparse" => AlgoRun.handleParse args
-  | "gtosubtree" | "gcutenter" | "gcutdepth" | "gcutleave" | "gcutleaveset" => AlgoRun.handleCut op args
   | "gtosubtree" | "gcutenter" | "gcutdepth" | "gcutleave" | "gcutleaveset" | "gcuttype" | "gcutorder" => AlgoRun.handleCut op args
   | "asm" => Asm.handle args
   | "gasm" => AlgoRun.handleAsm args
